@@ -17,7 +17,7 @@ TRUST = ('trusted base: the simulated resolver and the connection-attempt log of
 TECHNIQUE = 'deterministic simulation with an intercepting resolver/connect layer; reference model of the named endpoint; multi-phase connection-attempt log as the history'
 LEVEL = 'exploration'
 BUDGET = {'quick': 200, 'thorough': 2400}
-NCASES = {'quick': 700, 'thorough': 14000}
+NCASES = {'quick': 2100, 'thorough': 14000}
 RULE = ('non-trivial: a resolver query or a rejection happened; distinct by (spelling class, source, -p, family option, answer shape, accepting address).')
 ASSUMPTIONS = ['single-target text reports carry no label; labels are checked in JSON, policy and multi-target output']
 
